@@ -247,6 +247,10 @@ func c10GenMmap(r *vlib.Rand) *c10Mmap {
 
 func c10GenFB(r *vlib.Rand) *c10FB {
 	f := &c10FB{addr: c10GenU64(r), typ: uint8(r.Intn(3))}
+	if r.Chance(1, 6) {
+		// a type the format does not define: the tag then carries the common part only, no colour block
+		f.typ = uint8(r.PickInt([]int{3, 4, 7, 8, 0x10, 0x7f, 0x80, 0x81, 0xfe, 0xff, r.Range(3, 255)}))
+	}
 	switch r.Intn(3) {
 	case 0:
 		f.width, f.height, f.bpp = 1024, 768, 32
@@ -1307,7 +1311,11 @@ func c10RunBlock(c *vlib.Case, run *vlib.Run, blk, str *vlib.Arena, b *c10Block)
 		rich = rich || ne >= 2
 	}
 	if t := b.first("fb"); t != nil {
-		c10Count(run, fmt.Sprintf("framebuffer_type_%d", t.fb.typ), 1)
+		if t.fb.typ <= 2 {
+			c10Count(run, fmt.Sprintf("framebuffer_type_%d", t.fb.typ), 1)
+		} else {
+			c10Count(run, "framebuffer_type_undefined_3_to_255", 1)
+		}
 	}
 	if t := b.first("cmdline"); t != nil {
 		c10Count(run, "cmdline_tokens", int64(t.cmd.tokens))
